@@ -1,1 +1,41 @@
-def hello := "world"
+/-
+Basic types shared by all layers of the model of ascmitc/mhl.
+Model files import nothing beyond core Lean (so that the driver can run them with `lean --run`).
+-/
+namespace MhlModel
+
+abbrev Bytes := List UInt8
+
+/-- How a command ends when it does not end normally.  `exit n` is a `click.ClickException` with that exit
+code (the codes are in `Gen.exitCodes`); `internal k` is an uncaught Python exception of class `k`
+(process exit status 1).  "Never aborts with an internal error" is a statement about this type. -/
+inductive Err where
+  | exit (code : Nat)
+  | internal (kind : String)
+  deriving Repr, DecidableEq, Inhabited
+
+/-- last-write-wins lookup in an association list that models a Python dict which is only inserted into -/
+def alookup {α : Type} [DecidableEq κ] (k : κ) : List (κ × α) → Option α
+  | [] => none
+  | (k', v) :: rest => if k' = k then some v else alookup k rest
+
+/-- `d[k] = v` on an insertion-ordered dict -/
+def ainsert {α : Type} [DecidableEq κ] (k : κ) (v : α) : List (κ × α) → List (κ × α)
+  | [] => [(k, v)]
+  | (k', v') :: rest => if k' = k then (k', v) :: rest else (k', v') :: ainsert k v rest
+
+/-- insertion sort with an explicit `≤` test; Python's `list.sort()` / `sorted` is stable and so is this -/
+def insertSorted {α : Type} (le : α → α → Bool) (a : α) : List α → List α
+  | [] => [a]
+  | x :: xs => if le a x then a :: x :: xs else x :: insertSorted le a xs
+
+def isort {α : Type} (le : α → α → Bool) : List α → List α
+  | [] => []
+  | x :: xs => insertSorted le x (isort le xs)
+
+/-- `x not in l`-guarded append, the idiom of `MHLIgnoreSpec._append_patterns_list` and of every
+"do not permit duplicate entries" loop in commands.py -/
+def appendNew {α : Type} [DecidableEq α] (l : List α) (x : α) : List α :=
+  if x ∈ l then l else l ++ [x]
+
+end MhlModel
